@@ -16,6 +16,17 @@
 (*   The reduction the properties describe is by the null pattern of K:    *)
 (*   "active" = carries stiffness (both, konly); modes are zero elsewhere; *)
 (*   stiffness-only amplitudes are condensed, not clamped.                 *)
+(*   A column is null iff it holds no stored non-zero: the reduction is by *)
+(*   EXACT structural zeros, whatever the magnitude of the other entries   *)
+(*   (2^-100 is not zero).  The abstract problem carries no magnitude, so  *)
+(*   every outcome of this module is scale-covariant by construction:      *)
+(*     lb(tK, tKG) = lb(K, KG),  freq(tK, tM) = freq(K, M)   for all t > 0 *)
+(*     (also blockwise: an uncoupled block of K and B scaled together),    *)
+(*     lb(K, sKG) = lb(K, KG)/s,  freq(K, sM) = freq(K, M)/sqrt(s)  (p.s). *)
+(*   The harness realises every problem at several magnitudes (whole pair  *)
+(*   times 2^+-60, one uncoupled block times 2^-40 carrying the smallest   *)
+(*   positive multiplier / lowest frequency) and the trace specification   *)
+(*   judges all of them against the same spectrum.                         *)
 (*   sp    the exact spectrum of the pencil (B, K) restricted to the       *)
 (*         active amplitudes, ascending in mu, one entry (id) per active   *)
 (*         amplitude (mu = 0 for every "konly" amplitude: an infinite      *)
@@ -164,7 +175,8 @@ DoTrySparse(s) ==
        ELSE [s EXCEPT !.used = all, !.rrows = all, !.pc = "solve"]
 
 (* ------------------------------ RemoveNull ----------------------------- *)
-(* remove_null_cols(K, B): columns of the FIRST matrix (K) with a stored non-zero; dense freq: M.sum(axis=0) != 0 *)
+(* remove_null_cols(K, B): columns of the FIRST matrix (K) with a stored non-zero - exact zeros, no threshold;
+   dense freq: M.sum(axis=0) != 0 *)
 WhichMatrix(s) == IF s.o.api \in FreqApis /\ ~s.o.sparse THEN "B" ELSE "K"
 DoRemoveNull(s) ==
     LET \* today the dense frequency path keeps the amplitudes with M.sum(axis=0) != 0 instead of those carrying
